@@ -27,6 +27,8 @@ type Prog struct {
 	Contracts map[string]*Contract // key: pkgpath + "::" + normalised func key
 	SpecFns   map[string]*SpecFn   // by name (global namespace)
 	Lemmas    []*LemmaSpec
+	Ghosts    map[string]string      // ghost component name -> SMT sort text
+	Externs   map[string][]*Contract // full callee name -> trusted contracts for functions outside the repository
 	constGlob map[*ssa.Global]bool
 }
 
@@ -108,7 +110,8 @@ func loadProgram(repo string, pkgPatterns []string) (*Prog, error) {
 	prog, _ := ssautil.AllPackages(pkgs, ssa.GlobalDebug|ssa.InstantiateGenerics)
 	prog.Build()
 	P := &Prog{Repo: repo, Fset: fset, SSA: prog, Pkgs: map[string]*ssa.Package{}, TPkgs: map[string]*packages.Package{},
-		Contracts: map[string]*Contract{}, SpecFns: map[string]*SpecFn{}, constGlob: map[*ssa.Global]bool{}}
+		Contracts: map[string]*Contract{}, SpecFns: map[string]*SpecFn{}, constGlob: map[*ssa.Global]bool{},
+		Ghosts: map[string]string{}, Externs: map[string][]*Contract{}}
 	for _, p := range prog.AllPackages() {
 		P.Pkgs[p.Pkg.Path()] = p
 	}
@@ -145,6 +148,17 @@ func (P *Prog) loadContracts() error {
 			P.SpecFns[sf.Name] = sf
 		}
 		P.Lemmas = append(P.Lemmas, cf.Lemmas...)
+		for _, g := range cf.Ghosts {
+			fs := strings.SplitN(strings.TrimSpace(g), " ", 2)
+			if len(fs) == 2 {
+				P.Ghosts[fs[0]] = strings.TrimSpace(fs[1])
+			}
+		}
+		for _, c := range cf.Contracts {
+			if e := c.Options["extern"]; e != "" {
+				P.Externs[e] = append(P.Externs[e], c)
+			}
+		}
 	}
 	return nil
 }
